@@ -6,7 +6,7 @@ its configuration; `cc_stack_new_conf` hands the same configuration to `cc_array
 array share it (`Stack.Coh`); `cc_stack_destroy`/`destroy_cb` release the header through the stack's own
 `mem_free` (Q2); `cc_stack_filter` configures its result with the *source's* triple (Q3) — in the model
 `Stack.new … s.triple`; had it called the default constructor the model would say `.libc` and
-`filter_uses_only_own_triple` would be false. -/
+`derived_inherits_triple` and `lifecycle_uses_only_own_triple` (for programs containing `filter`) would be false. -/
 namespace CC.Properties.C14Stack
 open CC
 open CC.Spec.Seq (SOp Out)
